@@ -18,16 +18,22 @@ sys.path.insert(0, os.path.dirname(os.path.abspath(__file__)))
 import c11 as base  # noqa: E402
 
 MANIFEST = {
-    "text": "Theorems on the Gallina model of CompositeDataSource / DataSource navigation / Environment: lookup = newest "
-            "over the members' answers for every member order (Permutation), and over the union of the histories for "
-            "memory-store members; all_versions and query = each distinct (id, version) of the union once "
-            "(deduplicate_spec); attached filters bound everything a composite returns, for any members incl. nested "
-            "composites; relationships = exact scan, related_to = permutation of the scan's neighbours passing the extra "
-            "filters, creator_of = lookup; composite related_to: per-member variant refuted against the union by a "
-            "witness, federated variant (the code since 7d18324) proved = scan of the union. The same theorems for the "
-            "instance denoted by the source text (Props/C18Src.v via translators/tr_stores.py, fail closed) with "
-            "refutations of every recognised alternative. ObjectFactory.create: defaults / explicit arguments / list "
-            "append laws on Model/Factory.v.",
+    "text": "Theorems on the Gallina model of CompositeDataSource / DataSource navigation / Environment (spec notions in "
+            "Spec/StoreNavSpec.v): lookup = newest over the members' answers for every member order (Permutation), and "
+            "over the union of the histories for memory-store members; all_versions and query = each distinct "
+            "(id, version) of the union once (deduplicate_spec); attached filters bound everything a composite returns, "
+            "for any members incl. nested composites (soundness; completeness for memory members: "
+            "cquery_memory_members); relationships of a source = exact scan, through a composite = de-duplicated scan of "
+            "the union (crelationships_is_union_scan); related_to = permutation of the scan's neighbours passing the "
+            "extra filters; creator_memory = newest version of created_by_ref. Composite related_to: per-member variant "
+            "refuted against the union by a witness, federated variant (the code since 7d18324) proved = scan of the "
+            "union under the hypothesis that copies of one (id, version) in several members are the same object. "
+            "Definitional in the model (kept as labels, tied to the code by correspondence and translator only): "
+            "environment_is_composite, creator_is_lookup, related_composite. Props/C18Src.v restates the theorems for "
+            "the instance denoted by the source text (translators/tr_stores.py, fail closed) and refutes the recognised "
+            "alternatives with a definite semantics (running maximum updated always, first hit, filters not merged, "
+            "dedupe by id, `<`/`<=`); `>=` is not refuted (still a newest version). ObjectFactory.create: defaults / "
+            "explicit arguments / list append laws on Model/Factory.v.",
     "design_ref": "DESIGN.md 6/C18; design_notes/C11-C18.md",
     "note": "Trusted: Coq kernel + vm_compute (coqchk in the thorough tier); the hand-written models coq/Model/Store.v and "
             "Model/Factory.v, tied to stix2/datastore/__init__.py, utils.deduplicate, environment.py by (a) the per-run "
@@ -37,10 +43,9 @@ MANIFEST = {
             "filters attached to a composite bind navigation through it (the code ignores them; the property does not "
             "say); the iteration order of the Python set in related_to (results compared as multisets); the ObjectFactory "
             "documented-behaviour oracle runs only to find an input when its correspondence breaks. Assumed: member "
-            "stores as in C11; per-object filter evaluation abstract in Props/C18.v (concrete in the OPTIONAL bridge "
-            "Props/C18BridgeC12.v importing property C12's files; reported as a note, not claimed, if it does not build); "
-            "copies of one (id, version) in several members are the same object (federated related_to theorem). TAXII "
-            "sources are not covered. No axioms.",
+            "stores as in C11 (same domain: for the code as it is, registered-class objects); per-object filter "
+            "evaluation abstract in Props/C18.v (concrete in the OPTIONAL bridge Props/C18BridgeC12.v importing property "
+            "C12's files; reported as a note, not claimed, if it does not build). TAXII sources are not covered. No axioms.",
     "technique": "Coq proof over a hand-written executable model + source-text translator + per-run correspondence with the implementation",
 }
 
